@@ -68,7 +68,9 @@ func main() {
 		solve := fs.Bool("solve", true, "run the solvers")
 		timeout := fs.Int("t", 10, "timeout seconds")
 		outDir := fs.String("out", "", "write the scripts of the obligations selected by -ob into this directory instead of printing them")
+		split := fs.Bool("split", false, "emit one obligation per return instead of one per clause (debugging)")
 		fs.Parse(args[1:])
+		splitPending = *split
 		dumpOut = *outDir
 		cmdDump(g, *fn, *ob, *solve, *timeout)
 	case "check":
